@@ -790,6 +790,10 @@ def rulePODInterval(ts: datetime, p: Time, i: Interval) -> Optional[Interval]:
             minute=i.t_from.minute,
             DOW=i.t_from.DOW,
         )
+    if t_from and t_to and t_from.hasDate and t_to.hasDate and t_from.dt >= t_to.dt:
+        # shifting only one end by 12 hours inverted the dated range
+        # ("abends 5.3.2020 10-2" -> 22:00 - 14:00): not a reading
+        return None
     return Interval(t_from=t_from, t_to=t_to)
 
 
